@@ -246,7 +246,8 @@ def replay_args(f, P, args):
         if isinstance(scal[i], str):
             continue
         a = res["array"][i]
-        if abs(float(a) - float(scal[i])) > 1e-9 * max(1.0, abs(float(scal[i]))):
+        fa, fs = float(a), float(scal[i])
+        if (fa != fa) != (fs != fs) or abs(fa - fs) > 1e-9 * max(1.0, abs(fs)):
             res["differs"], res["position"] = True, i
             break
     return res
